@@ -8,7 +8,7 @@ import re
 from ..core import Ctx, RuleResult, finding, short, walk_no_nested
 from ..model import AnalysisError, norm
 from ..mutants import Mut
-from ..rules import dim, fresh, kind, posbound
+from ..rules import fwd, dim, fresh, kind, posbound
 from ..rules.defuse import DefUse
 from ..rules.util import callee_name, calls_in, cfg_of, lin_str, linear, nodes_where
 from ..tables import C01_DIM_EXCEPTIONS
@@ -210,6 +210,16 @@ def _apportion(ctx: Ctx):
     return r
 
 
+def _scroll_clamp(ctx: Ctx):
+    """Scrollable trims the rendered content by the stored position: an unclamped position trims more rows than
+    exist (ValueError) or leaves fewer rows than requested - the clamp rule of C20 is a necessary condition here."""
+    from . import c20
+
+    r = c20.rule_trim_writers(ctx)
+    r.clause = "C01.10"
+    return r
+
+
 def run(ctx: Ctx):
     p = ctx.p
     mods = modules(p)
@@ -221,6 +231,8 @@ def run(ctx: Ctx):
         posbound.run_posbound(p, "C01.6", mods, floor=8),
         fresh.run_fresh(p, "C01.7", ["urwid.canvas"], floor=30),
         _apportion(ctx),
+        fwd.run_fwd(p, "C01.9", ("urwid.widget",), floor=100, description="render(), rows() and pack() pass the focus flag on to the children they measure / draw, so the three agree on the size of the focused rendering"),
+        _scroll_clamp(ctx),
     ]
 
 
